@@ -308,4 +308,11 @@ example : (0 : ℝ) ≤ 1 ∧ (1 : ℝ) < 2 * π ∧ -(π / 2) ≤ (1 / 2 : ℝ)
 example : -(2 * π) < (-1 : ℝ) ∧ (-1 : ℝ) < 0 ∧ -(π / 2) ≤ (-1 : ℝ) ∧ (-1 : ℝ) ≤ π / 2 := by
   have := Real.two_le_pi
   refine ⟨by linarith, by norm_num, by linarith, by linarith⟩
+
+#print axioms proj_eq_spec
+#print axioms proj_eq_spec_neg
+#print axioms proj_eq_spec_sgn
+#print axioms sqrt6_cos_eq
+#print axioms proj_sym
+#print axioms unproj_sym
 end Hpx.Proj
